@@ -59,6 +59,11 @@ def models(name):
         "mask_one_photon": dict(modes=[a], H0=w * Na + al * Na * Na, H1=(a + Dagger(a)) ** 3, fd=a + Dagger(a) + a**3 + Dagger(a) ** 3),
         # matrix-valued: two-level system coupled to a boson, given as 2x2 matrix with two blocks
         "matrix_2x2": dict(modes=[a], H0=sympy.Matrix([[w * Na, 0], [0, w * Na + D]]), H1=sympy.Matrix([[a + Dagger(a), a + Dagger(a)], [a + Dagger(a), 0]]), blocks=[0, 1]),
+        # unequal block sizes (non-square off-diagonal blocks), smaller block first and last
+        "matrix_3x3_12": dict(modes=[a], H0=sympy.Matrix([[w * Na, 0, 0], [0, w * Na + D, 0], [0, 0, w * Na + al]]),
+                              H1=sympy.Matrix([[0, a + Dagger(a), a], [a + Dagger(a), 0, Dagger(a) + a], [Dagger(a), a + Dagger(a), a + Dagger(a)]]), blocks=[0, 1, 1]),
+        "matrix_3x3_21": dict(modes=[a], H0=sympy.Matrix([[w * Na, 0, 0], [0, w * Na + D, 0], [0, 0, w * Na + al]]),
+                              H1=sympy.Matrix([[0, a + Dagger(a), a], [a + Dagger(a), 0, Dagger(a) + a], [Dagger(a), a + Dagger(a), a + Dagger(a)]]), blocks=[0, 0, 1]),
         "matrix_1block": dict(modes=[a], H0=sympy.Matrix([[w * Na, 0], [0, w * Na + D]]), H1=sympy.Matrix([[0, a], [Dagger(a), a + Dagger(a)]])),
     }
     if name.startswith(("random:", "randomfree:")):
@@ -465,13 +470,15 @@ def configs(tier):
              ("mask_two_photon", 2), ("mask_one_photon", 2), ("matrix_2x2", 2), ("matrix_1block", 2),
              ("spin_fermion", 3), ("spin_two_fermions", 2), ("boson_ladder", 2), ("floquet_2x2", 2),
              ("two_spins", 3), ("jc_mask_counter_rotating", 2), ("two_bosons_mask", 2),
-             ("boson_complex_drive", 2), ("fermion_complex_hop", 3), ("rabi_y", 2), ("matrix_complex", 2), ("spin_boson_fermion", 2)]
+             ("boson_complex_drive", 2), ("fermion_complex_hop", 3), ("rabi_y", 2), ("matrix_complex", 2), ("spin_boson_fermion", 2),
+             ("matrix_3x3_12", 2), ("matrix_3x3_21", 2)]
     thorough = [("anharmonic3", 4), ("anharmonic4", 3), ("displaced", 4), ("kerr_drive", 3), ("two_bosons", 3), ("rabi", 4), ("jc_detuned", 3),
                 ("fermion_hop2", 4), ("fermion_pair3", 3), ("fermion_interaction", 3), ("holstein", 3), ("ladder_drive", 3),
                 ("mask_two_photon", 3), ("mask_one_photon", 2), ("matrix_2x2", 3), ("matrix_1block", 3),
                 ("spin_fermion", 4), ("spin_two_fermions", 3), ("boson_ladder", 3), ("floquet_2x2", 3),
                 ("two_spins", 4), ("jc_mask_counter_rotating", 3), ("two_bosons_mask", 3),
-                ("boson_complex_drive", 2), ("boson_complex_harmonic", 3), ("fermion_complex_hop", 4), ("rabi_y", 3), ("matrix_complex", 3), ("spin_boson_fermion", 3)]
+                ("boson_complex_drive", 2), ("boson_complex_harmonic", 3), ("fermion_complex_hop", 4), ("rabi_y", 3), ("matrix_complex", 3), ("spin_boson_fermion", 3),
+                ("matrix_3x3_12", 3), ("matrix_3x3_21", 3)]
     for name, mo in quick if tier == "quick" else thorough:
         cfgs.append(dict(model=name, max_order=mo, _timeout_s=300 if tier == "quick" else 1500))
     # seeded random polynomial models (fixed seeds per tier: the encoding is regenerated, the set is stated)
@@ -511,6 +518,11 @@ def c16_2nd_quant(cfg):
         "fermion_boson": dict(modes=[a, c], eigs=[[w * Na + ec * Nc], [w * Na + ec * Nc + D]],
                               Y={(0, 1): [[y[0] * Dagger(c) * a + y[1] * c + y[2] * Nc * Dagger(a) + y[3]]], (0, 0): [[y[4] * (Dagger(c) * a + Dagger(a) * c)]]}),
     }
+    # non-square off-diagonal blocks (1x2 and 2x1) between blocks of unequal size
+    sets["boson_nonsquare"] = dict(modes=[a], eigs=[[w * Na], [w * Na + D, w * Na + al]],
+                                   Y={(0, 1): [[y[0] * a + y[1] * Dagger(a) + y[2], y[3] * a + y[4] * Dagger(a) * Na + y[5]]],
+                                      (1, 0): [[y[0] * Dagger(a) + y[1] * a + y[2]], [y[3] * Dagger(a) + y[4] * Na * a + y[5]]],
+                                      (1, 1): [[y[0] * (a + Dagger(a)), y[1] * a + y[2]], [y[1] * Dagger(a) + y[2], y[3] * (a**2 + Dagger(a) ** 2)]]})
     from pymablock.number_ordered_form import LadderOp
 
     l = LadderOp("l")
@@ -528,7 +540,19 @@ def c16_2nd_quant(cfg):
     clauses = {}
     for (i, j), Y in m["Y"].items():
         Ym = sympy.Matrix(Y)
-        V = solve(Ym, (i, j, 1))
+        try:
+            V = solve(Ym, (i, j, 1))
+        except Exception as e:  # noqa: BLE001
+            from .herm import library_exception_info
+
+            is_lib, where = library_exception_info(e, pure_inputs=True)
+            if not is_lib:
+                raise
+            rec.direct_violation(f"solver raised on block ({i},{j})", sig + f":raised-{type(e).__name__}", {"exception": f"{type(e).__name__}: {e}"[:300], "where": where, "block": [i, j]}, reproduced=True)
+            continue
+        if tuple(V.shape) != tuple(Ym.shape):
+            rec.direct_violation(f"solution of block ({i},{j}) has shape {tuple(V.shape)} != {tuple(Ym.shape)}", sig + ":shape", {"block": [i, j]}, reproduced=True)
+            continue
         Hi, Hj = m["eigs"][i], m["eigs"][j]
         for bcase in fock.binary_cases(modes):
             F = fock.Fock(modes, binary=bcase)
